@@ -97,7 +97,7 @@ pub fn scenarios(thorough: bool) -> Vec<Scenario> {
     v.push(pair_scenario("pair-arrays", if thorough { &[1, 2, 3, 6, 9] } else { &[2, 3, 6] }, if thorough { 6 } else { 5 },
         &[Op::Resolve(0, 0, 0), Op::Resolve(1, 0, 1), Op::Unstage(0), Op::Snapshot(1)]));
     v.push(pair_conflict_scenario("pair-conflict", 2, 3, if thorough { &[1, 6, 8, 4] } else { &[1, 8] }, if thorough { 5 } else { 4 },
-        &[Op::Resolve(1, 0, 0), Op::Resolve(1, 0, 1), Op::Resolve(0, 0, 0), Op::Snapshot(1), Op::ObjPut(1, 1), Op::ObjPut(0, 2), Op::ObjDel(1)]));
+        &[Op::Resolve(1, 0, 0), Op::Resolve(1, 0, 1), Op::Resolve(0, 0, 0), Op::Snapshot(1), Op::ObjPut(1, 1), Op::ObjPut(0, 2), Op::ObjDel(1), Op::ObjRemove(1, 0)]));
     v.push(pair_conflict_scenario("pair-conflict-move", 6, 5, if thorough { &[1, 3, 8] } else { &[1, 8] }, if thorough { 5 } else { 4 }, &[Op::Snapshot(0), Op::ObjPut(1, 1), Op::ObjPut(0, 1)]));
     v.push(pair_scenario("pair-rootkinds", &[8, 9, 12, 14], if thorough { 5 } else { 4 }, &[Op::Resolve(0, 0, 0), Op::Resolve(1, 0, 1)]));
     v.push(trio_scenario("trio", if thorough { 7 } else { 6 }));
